@@ -74,6 +74,13 @@ def _worker_verify(job):
     return out
 
 
+def _worker_native(job):
+    modname, tier, seed = job
+    import importlib
+    mod = importlib.import_module(modname)
+    return mod.run(tier=tier, seed=seed)
+
+
 def slug(s):
     return re.sub(r'[^A-Za-z0-9_.-]+', '_', s)[:150]
 
@@ -131,8 +138,11 @@ def main(argv=None):
     native = []
     native_error = None
     try:
-        for nat in plan['native']:
-            native.append(nat(tier=tier, seed=seed))
+        # each native part runs in its own forked child: they patch hash functions / constants in-process
+        ctx2 = mp.get_context('fork')
+        for modname in plan['native']:
+            with ctx2.Pool(1) as pool1:
+                native.append(pool1.apply(_worker_native, ((modname, tier, seed),)))
     except Exception:
         native_error = traceback.format_exc()
 
@@ -176,6 +186,8 @@ def main(argv=None):
         checker_problems.append("no committed baseline for %s" % prop)
     if jobs and not obligations and not a.only:
         checker_problems.append("zero obligations generated")
+    if a.only:
+        native = []
 
     known = contracts.known_findings(prop)
     violations = []
